@@ -15,6 +15,7 @@ class _Obs(clingo.Observer):
         self.out_atoms = []
         self.out_terms = []
         self.externals = []
+        self.edges = []  # (node_u, node_v, condition literals) of #edge directives
         self.theory = 0
 
     def rule(self, choice, head, body):
@@ -35,6 +36,9 @@ class _Obs(clingo.Observer):
     def external(self, atom, value):
         self.externals.append((atom, value))
 
+    def acyc_edge(self, node_u, node_v, condition):
+        self.edges.append((int(node_u), int(node_v), tuple(int(l) for l in condition)))
+
     def theory_atom(self, atom_id_or_zero, term_id, elements):
         self.theory += 1
 
@@ -54,6 +58,7 @@ class Ground:
         self.minimize = obs.minimize_
         self.out_terms = obs.out_terms
         self.externals = obs.externals
+        self.edges = obs.edges
         self.theory = obs.theory
         self.symtab = symtab  # atom -> clingo.Symbol
         self.msgs = msgs  # [(code, text)]
